@@ -190,4 +190,12 @@ def inflateWithRest (bs : List UInt8) : Option (List UInt8 × Nat) :=
 /-- Decode a raw DEFLATE stream, ignoring any bytes after the final block. -/
 def inflate (bs : List UInt8) : Option (List UInt8) := (inflateWithRest bs).map (·.1)
 
+/-- Decode a raw DEFLATE stream that must fill the input exactly: `None` if bytes remain after the
+    byte holding the last bit of the final block (a compressed change chunk is the stream and nothing
+    else: `decoder.total_in() == compressed.len()` in `Chunk::parse`). -/
+def inflateExact (bs : List UInt8) : Option (List UInt8) :=
+  match inflateWithRest bs with
+  | some (out, used) => if used == bs.length then some out else none
+  | none => none
+
 end AmVerif.Inflate
